@@ -160,6 +160,63 @@ def fix_guards(root: Path):
     return out
 
 
+def serialise_sites(root: Path):
+    """Round 4: what lies between a results / IR object and the output stream — (site, text) in source order:
+    the bodies of `serialise` / `serialise_irs` and of the three printing functions of __main__, and EVERY call of
+    `serialise` / `serialise_irs` in the package with the keywords it passes (`ensure_ascii` is none of them)."""
+    out = []
+
+    def call_sig(c):
+        kws = ["**" if k.arg is None else k.arg + "=" for k in c.keywords]
+        return f"{ast.unparse(c.func)}(<{len(c.args)} positional>" + "".join(", " + k for k in kws) + ")"
+
+    def body_of(fn):
+        b = fn.body
+        if b and isinstance(b[0], ast.Expr) and isinstance(b[0].value, ast.Constant) and isinstance(b[0].value.value, str):
+            b = b[1:]
+        return b
+
+    bodies = {("models/util/serialise.py", "serialise"), ("models/util/serialise.py", "serialise_irs"), ("__main__.py", "show_ir"),
+              ("__main__.py", "show_cacheable_results"), ("__main__.py", "show_results")}
+    for f in sorted(root.rglob("*.py"), key=lambda q: (q.name != "serialise.py", q.as_posix())):
+        rel = f.relative_to(root).as_posix()
+        mod = rel[:-3].replace("/", ".")
+        tree = ast.parse(f.read_text())
+        for fn in ast.walk(tree):
+            if not isinstance(fn, (ast.FunctionDef, ast.AsyncFunctionDef)):
+                continue
+            if (rel, fn.name) in bodies:
+                for st in body_of(fn):
+                    out.append((f"{mod}.{fn.name}:body", ast.unparse(st)))
+            for c in ast.walk(fn):
+                if isinstance(c, ast.Call) and ast.unparse(c.func).split(".")[-1] in ("serialise", "serialise_irs"):
+                    out.append((f"{mod}.{fn.name}:call", call_sig(c)))
+    return out
+
+
+def non_ascii_constants(root: Path):
+    """Round 4: every string constant of the package's CODE (docstrings / bare string statements excluded) that holds a
+    non-ASCII character — text rattr itself may print whatever the input is: (file::function, the non-ASCII code points)."""
+    out = []
+    for f in sorted(root.rglob("*.py")):
+        rel = f.relative_to(root).as_posix()
+        tree = ast.parse(f.read_text())
+        bare = {id(n.value) for n in ast.walk(tree) if isinstance(n, ast.Expr) and isinstance(n.value, ast.Constant)}
+
+        def walk(node, qual):
+            for ch in ast.iter_child_nodes(node):
+                if isinstance(ch, (ast.FunctionDef, ast.AsyncFunctionDef, ast.ClassDef)):
+                    walk(ch, qual + [ch.name])
+                    continue
+                if isinstance(ch, ast.Constant) and isinstance(ch.value, str) and not ch.value.isascii() and id(ch) not in bare:
+                    cps = sorted({ord(c) for c in ch.value if ord(c) > 127})
+                    out.append((f"{rel}::{'.'.join(qual) or '<module>'}", " ".join(f"U+{c:04X}" for c in cps)))
+                walk(ch, qual)
+
+        walk(tree, [])
+    return out
+
+
 _tables_round2 = tables
 
 
@@ -169,7 +226,15 @@ def tables():
     root = Path(os.path.dirname(rattr.__file__))
     rows = stats_exprs(root)
     guards = fix_guards(root)
+    sites = serialise_sites(root)
+    consts = non_ascii_constants(root)
     return _tables_round2() + [
+        "/-- round 4: the non-ASCII string constants of rattr's own code: (file::function, code points) -/",
+        "def nonAsciiConstants : List (String × String) :=\n  [" + ",\n   ".join("(" + lstr(a) + ", " + lstr(b) + ")" for a, b in consts) + "]",
+    ] + [
+        "/-- round 4: `serialise`, its callers and the statements that hand the text to a stream: (site, text) -/",
+        "def serialiseSites : List (String × String) :=\n  [" + ",\n   ".join("(" + lstr(a) + ", " + lstr(b) + ")" for a, b in sites) + "]",
+    ] + [
         "/-- the guards of fixes c5833ef (K23), 353eacf (K24), bcdf6de (K25): (site, what it does) -/",
         "def fixGuards : List (String × String) :=\n  [" + ",\n   ".join("(" + lstr(a) + ", " + lstr(b) + ")" for a, b in guards) + "]",
     ] + [
